@@ -29,6 +29,11 @@ def gen_module(m):
 
 def main():
     args = sys.argv[1:]
+    pin = '--pin' in args
+    args = [a for a in args if a != '--pin']
+    spec_fp = os.path.join(os.path.dirname(os.path.abspath(__file__)), '..', '..', 'Spec', 'local_fingerprints.json')
+    if os.path.exists(spec_fp) and not pin:
+        emit.PINNED_FP.update(json.load(open(spec_fp))['modules'])
     out = os.path.join(os.path.dirname(os.path.abspath(__file__)), '..', '..', 'lean', 'QscModel', 'Gen')
     if args and args[0] == '--out':
         out = args[1]; args = args[2:]
@@ -68,6 +73,13 @@ def main():
                 meta['aborts'][comp.capitalize()] = dict(kind=type(ex).__name__, msg=str(ex), tb=traceback.format_exc(limit=-4))
         with open(os.path.join(out, 'gen_meta.json'), 'w') as f:
             json.dump(meta, f, indent=1, sort_keys=True)
+    meta['recovered_locals'] = emit.RECOVERED      # renamed / inlined locals recognised by fingerprint
+    meta['lost_locals'] = emit.LOST                # locals of the pinned tree with no counterpart: their definitions are not emitted
+    with open(os.path.join(out, 'gen_meta.json'), 'w') as f:
+        json.dump(meta, f, indent=1, sort_keys=True)
+    if pin:
+        with open(spec_fp, 'w') as f:
+            json.dump(dict(note='fingerprints (expr.fingerprint: hash modulo AC, x*x = x**2) of the named locals of the pinned tree; used only to recognise a renamed or inlined local', modules=emit.CURRENT_FP), f, indent=1, sort_keys=True)
     for n, a in meta['aborts'].items():
         print('ABORT', n, a['kind'], a['msg'])
     print('generated', len(meta['modules']), 'modules;', len(meta['aborts']), 'aborts')
